@@ -550,7 +550,10 @@ class ObservableResource(Resource, metaclass=abc.ABCMeta):
                 if is_last:
                     return
         finally:
-            servobs._cancellation_callback()
+            # (Only an accepted observation has a cancellation callback; a
+            # resource may well turn a particular observation request down.)
+            if servobs._accepted:
+                servobs._cancellation_callback()
 
     async def render_to_pipe(self, request: Pipe) -> None:
         warnings.warn(
